@@ -96,6 +96,12 @@ CLAIMED = {
          "return the session value for it, and the structures must compare equal. TLC enumerates (type, value, syntax); the glue builds the "
          "module under each option set from the working tree; the descriptor-walking driver is independent of the C representation.",
          "TLA+ canonical-encoder rule across builds + TLC-enumerated values + trace validation per option set"),
+ "C10": ("exploration", "7 C10",
+         "MC_Pipeline.tla is the compiler pipeline protocol (asn1c -> cc -> c++ headers -> link -> descriptor consistency) over runs = (source module, "
+         "option set); TLC enumerates the runs, the glue performs them with the compiler built from the working tree, and the trace specification "
+         "accepts a run only if asn1c ended by exit, a rejection carried a diagnostic, and every stage after exit 0 succeeded. TLA+ cannot decide 'this C "
+         "file compiles': that is observed with gcc / g++ / the descriptor-walking driver on the enumerated programs.",
+         "TLC-enumerated (program, option set) runs + TLA+ pipeline protocol monitor over observed build stages"),
 }
 
 checks = []
